@@ -3,7 +3,9 @@
 (* of IRDeriveGen):                                                           *)
 (*  [id, kind, e, envs,                                                       *)
 (*   base: [eqself, eqfresh, hashfresh, copy (tree|none), copyeq, shared,     *)
-(*          visit (tree|none), visiteq, canon (tree|none), exc (string)],     *)
+(*          visit (tree|none), visiteq, canon (tree|none), exc (string),      *)
+(*          eqterm, hashterm: == / equal hashes against the same expression   *)
+(*          whose identifiers carry the other is_term flag],                  *)
 (*   mut:  [f, g, ef, fe, fg, eg, hef, hfg]           (kind = "mut")          *)
 (*   map:  [map, res (tree|none)]                     (kind = "map")]         *)
 (* Booleans are 0/1.                                                          *)
@@ -24,7 +26,7 @@ Base(r) ==
    LET b == r.base IN
    IF b.exc # "" THEN <<[clause |-> "C15.exception", what |-> b.exc]>>
    ELSE IF b.eqself # 1 \/ b.eqfresh # 1 THEN <<[clause |-> "C15.eq.reflexive"]>>
-   ELSE IF b.hashfresh # 1 THEN <<[clause |-> "C15.eq.hash"]>>
+   ELSE IF b.hashfresh # 1 \/ (b.eqterm = 1 /\ b.hashterm # 1) THEN <<[clause |-> "C15.eq.hash"]>>
    ELSE IF IsNone(b.copy) \/ b.copy # r.e \/ b.copyeq # 1 THEN <<[clause |-> "C15.copy.equal"]>>
    ELSE IF b.shared # 0 THEN <<[clause |-> "C15.copy.shared", n |-> b.shared]>>
    ELSE IF IsNone(b.visit) \/ b.visit # r.e \/ b.visiteq # 1 THEN <<[clause |-> "C15.visit.identity"]>>
